@@ -820,7 +820,7 @@ fn run_zeroize(cfg: &Value) -> Value {
             drop(mk);
             zscan::disarm()
         },
-        "statement" | "prove" | "verify_recover" | "verify_recover_fail" | "verify_recover_fail_batch" | "prove_refused_g" | "prove_refused_h" => {
+        "statement" | "prove" | "prove_twice" | "verify_recover" | "verify_recover_fail" | "verify_recover_fail_batch" | "prove_refused_g" | "prove_refused_h" => {
             #[allow(unused_mut)]
             let mut pc = ristretto::create_pedersen_gens_with_extension_degree(ext_degree(x));
             // a prover call that is refused INSIDE the transcript set-up (after the witness checks passed): the compressed form of a generator that is
@@ -862,6 +862,23 @@ fn run_zeroize(cfg: &Value) -> Value {
                     let r = zscan::disarm();
                     assert!(p.is_ok());
                     r
+                } else if what == "prove_twice" {
+                    // the same statement / witness objects used for two proofs and a recovering verification, then dropped: whatever an object keeps
+                    // between calls (memoised bytes, scratch) is released at the end and must be wiped by then
+                    zscan::arm();
+                    let p1 = RistrettoRangeProof::prove_with_rng(&mut t, &st, &w, &mut rng);
+                    let mut t2 = Transcript::new(b"symx context");
+                    let p2 = RistrettoRangeProof::prove_with_rng(&mut t2, &st, &w, &mut rng);
+                    let ok = p1.is_ok() && p2.is_ok();
+                    let mut ts = vec![Transcript::new(b"symx context"), Transcript::new(b"symx context")];
+                    let masks = RangeProof::verify_batch(&mut ts, &[st.clone(), st.clone()], &[p1.unwrap(), p2.unwrap()], VerifyAction::RecoverAndVerify);
+                    let ok = ok && masks.is_ok();
+                    drop(masks);
+                    drop(w);
+                    drop(st);
+                    let r = zscan::disarm();
+                    assert!(ok);
+                    return json!({"what": what, "freed_blocks": r.0, "dirty_blocks": r.1, "a_dirty_block_size": r.2});
                 } else if what == "prove_refused_g" || what == "prove_refused_h" {
                     zscan::arm();
                     let p = RistrettoRangeProof::prove_with_rng(&mut t, &st, &w, &mut rng);
